@@ -199,16 +199,23 @@ class Result:
         self.cleared = 0
         self.n_split = 0
         self.derived = 0
+        self.multiplied_by = None
 
     def as_dict(self):
         return {k: getattr(self, k) for k in
                 ("status", "goal_status", "rows", "monos", "rounds", "solver_s", "wall_s", "maxdeg", "queries",
-                 "cleared", "n_split", "derived")}
+                 "cleared", "n_split", "derived", "multiplied_by")}
 
 
 class _Lra:
     def __init__(self, timeout_ms):
-        self.s = z3.SolverFor("QF_LRA")
+        import os
+        mode = os.environ.get("VERIF_LRA", "lra")
+        if mode == "solve-eqs":
+            # Gaussian elimination of the equalities inside z3, then the LRA core on what is left
+            self.s = z3.Then("simplify", "solve-eqs", "smt").solver()
+        else:
+            self.s = z3.SolverFor("QF_LRA")
         self.s.set("timeout", int(timeout_ms))
         self.mon = {}
 
@@ -250,6 +257,39 @@ class _Lra:
         return r, per, q
 
 
+def prove_with_cancellation(hyps, goals, *, inv_atoms=None, log=None, budget_s=300.0, **kw):
+    """prove(goals); if that fails, retry with the goals multiplied by non-zero quantities (A3: bases of
+    inverse atoms that are single variables, e.g. a named innovation variance).  b*g = 0 and b != 0
+    give g = 0, so a proof of the multiplied goal is a proof of the goal."""
+    t0 = time.time()
+    res = prove(hyps, goals, inv_atoms=inv_atoms, log=log, budget_s=budget_s, **kw)
+    if res.status in ("proved", "trivial") or not inv_atoms:
+        return res
+    cands = []
+    for v, b in inv_atoms.items():
+        if len(b.t) == 1 and b not in cands:
+            (m, c), = b.t.items()
+            if len(m) == 1 and m[0][1] == 1:
+                cands.append(b)
+    tried = 0
+    cands = cands[::-1]
+    mults = list(cands)
+    for b in mults:
+        left = budget_s - (time.time() - t0)
+        if left < 5:
+            break
+        r2 = prove(hyps, [g * b for g in goals], inv_atoms=inv_atoms, log=log, budget_s=left, **kw)
+        tried += 1
+        res.rows += r2.rows; res.queries += r2.queries; res.solver_s += r2.solver_s
+        if r2.status == "proved":
+            r2.rows = res.rows; r2.queries = res.queries; r2.solver_s = res.solver_s
+            r2.multiplied_by = str(b)
+            r2.wall_s = time.time() - t0
+            return r2
+    res.wall_s = time.time() - t0
+    return res
+
+
 def prove(hyps, goals, *, alg_atoms=None, sq_atoms=None, inv_atoms=None, defined=None, extra_deg=2, maxdeg=None,
           max_rounds=24, max_rows=120000, timeout_ms=120000, budget_s=300.0, max_terms=3_000_000, log=None):
     """Try to show that every goal is zero given hyps (all == 0).
@@ -263,8 +303,12 @@ def prove(hyps, goals, *, alg_atoms=None, sq_atoms=None, inv_atoms=None, defined
     sq_atoms = sq_atoms or {}
     inv_atoms = inv_atoms or {}
 
+    # squares of sqrt/abs atoms are rewritten only when the radicand is simple; otherwise the
+    # defining equation stays an ordinary hypothesis (avoids expression swell)
+    sq_simple = dict(sq_atoms)
+
     def norm(p):
-        return reduce_atoms(reduce_squares(p, sq_atoms), alg_atoms)
+        return reduce_atoms(reduce_squares(p, sq_simple), alg_atoms)
     hyps0 = hyps
     hyps = []
     for h in hyps0:
